@@ -58,6 +58,11 @@ def is_some(o):
         a, b = is_some(o[2]), is_some(o[3])
         if a == b:
             return a
+        # one arm is None: presence is the gate condition (and the presence of the other arm)
+        if b == FALSE:
+            return conj([o[1], a])
+        if a == FALSE:
+            return conj([neg_cond(o[1]), b])
     return ('is_some', o)
 
 
@@ -619,6 +624,12 @@ class VG:
         if name in ('std::ops::Range', 'std::ops::RangeInclusive'):
             f = {x['name']: self.value(x['e'], fr) for x in e['fields']}
             return ('range', f.get('start', lit(0, 'i')), f.get('end', unk('end')), name.endswith('Inclusive'))
+        if name == 'std::ops::RangeFrom':
+            f = {x['name']: self.value(x['e'], fr) for x in e['fields']}
+            return ('range', f.get('start', lit(0, 'i')), None, False)      # unbounded above
+        if name in ('std::ops::RangeTo', 'std::ops::RangeToInclusive'):
+            f = {x['name']: self.value(x['e'], fr) for x in e['fields']}
+            return ('range', lit(0, 'i'), f.get('end', unk('end')), name.endswith('Inclusive'))
         fs = {}
         for x in e['fields']:
             fs[x['name']] = self.value_noderef(x['e'], fr)
@@ -767,6 +778,24 @@ class VG:
 
     # ------------------------------------------------------------------ loops
     def v_loop(self, e, fr):
+        # `while C { B }` (no break/continue/return inside B) is modelled as a single guarded iteration plus the residual
+        # obligation `C is false afterwards` (event 'while-once'): when the consumer proves the obligation from the class
+        # invariant the model is exact -- the common "evict until there is room" idiom runs at most once.
+        body = e.get('body', {})
+        if e.get('src') == 'While' and body.get('k') == 'block' and not body.get('stmts') and body.get('expr', {}).get('k') == 'if':
+            iff = body['expr']
+            els = iff.get('else')
+            then = iff.get('then')
+            only_break = (els is not None and els.get('k') == 'block' and 'expr' not in els and len(els.get('stmts', [])) == 1
+                          and strip(els['stmts'][0].get('e', {})).get('k') == 'break')
+            clean = then is not None and not any(n.get('k') in ('break', 'continue', 'ret', 'try', 'loop', 'for') for n in walk(then))
+            if only_break and clean and iff['cond'].get('k') != 'letexpr':
+                once = {'k': 'if', 'cond': iff['cond'], 'then': then, 'ty': '()', 'sp': e.get('sp')}
+                self.value(once, fr)
+                if not self.dead:
+                    c2 = self.value(iff['cond'], fr)
+                    self.event('while-once', (c2,), e)
+                return ('unit',)
         self.note_unknown('bare-loop', e)
         for (path) in self._assigned_fields(e['body'], fr):
             self.fields[path] = unk('loop-carried')
@@ -795,6 +824,16 @@ class VG:
         it = self.value_noderef(e['iter'], fr)
         if self.dead:
             return unk('dead')
+        if isinstance(it, tuple) and it and it[0] == 'ref' and isinstance(it[1], tuple) and it[1][0] in ('field', 'local', 'elem'):
+            # `for x in &seq` / `for x in &seq[a..b]`: shared iteration over the sequence (or slice) behind the reference
+            if it[1][0] == 'elem' and isinstance(it[1][2], tuple) and it[1][2] and it[1][2][0] == 'range':
+                base = self.read_place(it[1][1])
+                r = it[1][2]
+                hi = r[2] if r[2] is not None else ('len', base)
+                self.event('slice', (base, r[1], _iadd(hi, lit(1, 'i')) if r[3] else hi), e['iter'])
+                it = ('iter', ('get', base, r))
+            elif it[1][0] != 'elem':
+                it = ('iter', self.read_place(it[1]))
         self.nloops += 1
         L = 'L%d' % self.nloops
         body = e['body']
@@ -853,6 +892,8 @@ class VG:
             self.fields[fp] = ('mu', L, ('field', fp))
         # bind the item pattern
         item, hyps = self.iter_model(it, L)
+        if self.last_canon is not None:
+            info['iter'] = self.last_canon
         info['hyps'] = hyps
         self.bind_pat(e['pat'], item, fr)
         saved_pc = list(self.pc)
@@ -883,6 +924,18 @@ class VG:
         applied from the base outwards: skip raises the lower bound, take bounds the count from the
         current lower bound, enumerate counts from the current lower bound. Unsupported adaptors give
         an opaque item (no element/index relation is assumed)."""
+        self.last_canon = None
+        if _needs_canon(it):
+            d_ = iter_desc(it)
+            if d_ is None:
+                return ('item', L), []
+            count, item_fn = d_
+            p = ('idx', L)
+            if count is None:
+                return ('item', L), []
+            # canonical form: positions 0 .. count-1; every consumer of loop records sees a plain range
+            self.last_canon = ('range', lit(0, 'i'), count, False)
+            return item_fn(p), [op('ge', p, lit(0, 'i')), op('lt', p, count)]
         chain = []
         cur = it
         while isinstance(cur, tuple) and cur and cur[0] in ('enumerate', 'take', 'skip', 'copied'):
@@ -1168,6 +1221,47 @@ class VG:
             if short in ('zip',):
                 b = d(argv[1])
                 return phi(conj([is_some(od), is_some(b)]), some(('tuple', (payload(od), payload(b)))), NONE)
+            if short in ('filter', 'and_then', 'is_some_and', 'map_or', 'unwrap_or_else', 'or_else', 'map_or_else', 'is_none_or'):
+                cl = argv[-1]
+                if not (isinstance(cl, tuple) and cl and cl[0] == 'closure'):
+                    return self.note_unknown('option-%s-non-closure' % short, e)
+                if short in ('unwrap_or_else', 'or_else'):
+                    saved = self.save()
+                    self.pc.append(neg_cond(is_some(od)))
+                    r = self.apply_closure(cl, [], fr)
+                    self.restore(saved)
+                    return phi(is_some(od), payload(od) if short == 'unwrap_or_else' else od, d(r) if short == 'unwrap_or_else' else r)
+                saved = self.save()
+                self.pc.append(is_some(od))
+                r = self.apply_closure(cl, [payload(od)], fr)
+                self.restore(saved)
+                if isinstance(r, tuple) and r and r[0] == 'ref':
+                    r = self.deref(r)
+                if short == 'filter':
+                    return phi(conj([is_some(od), r]), od, NONE)
+                if short == 'and_then':
+                    return phi(is_some(od), r, NONE)
+                if short == 'is_some_and':
+                    return conj([is_some(od), r])
+                if short == 'is_none_or':
+                    return op('or', neg_cond(is_some(od)), r)
+                if short == 'map_or':
+                    return phi(is_some(od), r, d(argv[1]))
+                if short == 'map_or_else':
+                    dcl = argv[1]
+                    if isinstance(dcl, tuple) and dcl and dcl[0] == 'closure':
+                        saved = self.save()
+                        self.pc.append(neg_cond(is_some(od)))
+                        dv = self.apply_closure(dcl, [], fr)
+                        self.restore(saved)
+                        return phi(is_some(od), r, d(dv))
+            if short == 'or':
+                return phi(is_some(od), od, d(argv[1]))
+            if short == 'and':
+                return phi(is_some(od), d(argv[1]), NONE)
+            if short == 'xor':
+                b = d(argv[1])
+                return phi(is_some(od), phi(is_some(b), NONE, od), b)
             return self.note_unknown('option-' + short, e)
         # ---- sequences
         if name.startswith(('std::collections::VecDeque::', 'std::vec::Vec::', 'slice::', 'std::vec::from_elem')):
@@ -1177,6 +1271,19 @@ class VG:
             return self.iter_call(e, fr, name, short, argv)
         if name == 'std::ops::RangeInclusive::new':
             return ('range', d(argv[0]), d(argv[1]), True)
+        if name in ('std::iter::repeat', 'std::iter::repeat_n', 'std::iter::repeat_with'):
+            x = argv[0]
+            if short == 'repeat_with':
+                if isinstance(x, tuple) and x and x[0] == 'closure':
+                    x = self.apply_closure(x, [], fr)
+                else:
+                    fn_node = strip(e['args'][0])
+                    fname = canon(fn_node.get('def', '')) if fn_node.get('k') == 'path' else ''
+                    if fname.split('::')[-1] in FLOAT_CONSTS and fname.startswith(('num::', 'num_traits::')):
+                        x = lit(FLOAT_CONSTS[fname.split('::')[-1]], 'f')
+                    else:
+                        return self.note_unknown('repeat_with-non-closure', e)
+            return ('repeat', d(x), d(argv[1]) if short == 'repeat_n' else None)
         if name in ('std::default::Default::default',):
             ty = e.get('ty', '')
             if 'PhantomData' in ty:
@@ -1212,8 +1319,26 @@ class VG:
             return self.note_unknown('lib-' + name, e)
         if name.startswith('std::marker::PhantomData'):
             return ('phantom',)
-        if short in ('saturating_sub', 'wrapping_sub', 'checked_sub', 'saturating_add', 'wrapping_add', 'checked_add'):
+        if short == 'checked_sub' and len(argv) == 2:
+            a, b = d(argv[0]), d(argv[1])
+            return phi(op('ge', a, b), some(op('isub', a, b)), NONE)
+        if short == 'checked_add' and len(argv) == 2:
+            return some(op('iadd', d(argv[0]), d(argv[1])))   # usize + usize does not overflow within 2^64 (stated assumption)
+        if short in ('saturating_sub', 'wrapping_sub', 'saturating_add', 'wrapping_add'):
             return op(short, *[d(a) for a in argv])
+        if short in ('then', 'then_some') and 'bool' in name and len(argv) == 2:
+            c = d(argv[0])
+            if short == 'then_some':
+                return phi(c, some(d(argv[1])), NONE)
+            cl = argv[1]
+            if isinstance(cl, tuple) and cl and cl[0] == 'closure':
+                saved = self.save()
+                self.pc.append(c)
+                r = self.apply_closure(cl, [], fr)
+                self.restore(saved)
+                if isinstance(r, tuple) and r and r[0] == 'ref':
+                    r = self.deref(r)
+                return phi(c, some(r), NONE)
         return self.note_unknown('lib-' + name, e)
 
     def apply_closure(self, cl, args, fr):
@@ -1348,6 +1473,15 @@ class VG:
         if short in ('enumerate', 'copied', 'cloned', 'rev', 'peekable', 'by_ref'):
             tag = {'cloned': 'copied', 'peekable': 'copied', 'by_ref': 'copied'}.get(short, short)
             return (tag, it)
+        if short == 'take' and isinstance(it, tuple) and it and it[0] == 'repeat' and it[2] is None:
+            return ('repeat', it[1], d(argv[1]))
+        if short == 'collect' and isinstance(it, tuple) and it and it[0] == 'repeat' and it[2] is not None:
+            self.event('alloc', (it[2],), e)
+            return ('seq_rep', it[1], it[2])
+        if short == 'collect' and isinstance(it, tuple) and it and it[0] in ('iter', 'copied') and _iter_seq(it) is not None and not _needs_canon(it):
+            seq = _iter_seq(it)
+            self.event('alloc', (('len', seq),), e)
+            return seq
         if short in ('take', 'skip', 'step_by'):
             return (short, it, d(argv[1]))
         if short == 'zip':
@@ -1381,12 +1515,12 @@ class VG:
             while isinstance(base, tuple) and base and base[0] == 'map':
                 maps.append(base[2])
                 base = base[1]
-            if isinstance(base, tuple) and base and base[0] in ('iter', 'range', 'enumerate', 'take', 'skip', 'copied'):
+            if isinstance(base, tuple) and base and (base[0] in ('iter', 'range', 'enumerate', 'take', 'skip', 'copied') or (_needs_canon(base) and iter_desc(base) is not None and iter_desc(base)[0] is not None)):
                 self.nloops += 1
                 L = 'L%d' % self.nloops
                 key = ('local', 'acc%d' % self.nloops)
                 item, hyps = self.iter_model(base, L)
-                info = {'iter': base, 'node': e, 'carried': {}, 'outer': tuple(self.loop_stack), 'hyps': hyps}
+                info = {'iter': self.last_canon if self.last_canon is not None else base, 'node': e, 'carried': {}, 'outer': tuple(self.loop_stack), 'hyps': hyps}
                 self.loops[L] = info
                 saved_pc = list(self.pc)
                 self.pc.append(('inloop', L))
@@ -1404,8 +1538,22 @@ class VG:
                 elif short == 'product':
                     init, nxt = lit(1.0), op('mul', mu, self.deref(item))
                 elif short == 'fold' and len(argv) == 3 and isinstance(argv[2], tuple) and argv[2][0] == 'closure':
-                    init = d(argv[1])
-                    nxt = self.apply_closure(argv[2], [mu, item], fr)
+                    init = d(argv[1]) if not (isinstance(argv[1], tuple) and argv[1] and argv[1][0] == 'tuple') else argv[1]
+                    if isinstance(init, tuple) and init and init[0] == 'tuple':
+                        # tuple accumulator: one carried variable per component (scalar replacement)
+                        keys = [('local', 'acc%d_%d' % (self.nloops, i)) for i in range(len(init[1]))]
+                        mus = ('tuple', tuple(('mu', L, k_) for k_ in keys))
+                        nx = self.apply_closure(argv[2], [mus, item], fr)
+                        if isinstance(nx, tuple) and nx and nx[0] == 'tuple' and len(nx[1]) == len(keys):
+                            self.loop_stack.pop()
+                            self.pc = saved_pc
+                            for k_, i0, n0 in zip(keys, init[1], nx[1]):
+                                info['carried'][k_] = (d(i0), d(n0))
+                            return ('tuple', tuple(('fold', L, k_, d(i0), d(n0)) for k_, i0, n0 in zip(keys, init[1], nx[1])))
+                        ok = False
+                        nxt = unk('iter-fold-tuple')
+                    else:
+                        nxt = self.apply_closure(argv[2], [mu, item], fr)
                 else:
                     ok = False
                     init = nxt = unk('iter-' + short)
@@ -1415,6 +1563,28 @@ class VG:
                     info['carried'][key] = (init, nxt)
                     return ('fold', L, key, init, nxt)
             return self.note_unknown('iter-' + short, e)
+        if short == 'reduce' and len(argv) == 2 and isinstance(argv[1], tuple) and argv[1][0] == 'closure':
+            seq = _iter_seq(it)
+            if seq is not None and it[0] in ('iter', 'copied') and not _needs_canon(it):
+                # first element seeds the accumulator, the remaining ones are folded in
+                base = ('skip', it, lit(1, 'i'))
+                self.nloops += 1
+                L = 'L%d' % self.nloops
+                key = ('local', 'acc%d' % self.nloops)
+                item, hyps = self.iter_model(base, L)
+                info = {'iter': base, 'node': e, 'carried': {}, 'outer': tuple(self.loop_stack), 'hyps': hyps}
+                self.loops[L] = info
+                saved_pc = list(self.pc)
+                self.pc.append(('inloop', L))
+                self.pc.append(op('gt', ('len', seq), lit(0, 'i')))
+                self.loop_stack.append(L)
+                mu = ('mu', L, key)
+                nxt = self.apply_closure(argv[1], [mu, self.deref(item)], fr)
+                self.loop_stack.pop()
+                self.pc = saved_pc
+                init = ('get', seq, lit(0, 'i'))
+                info['carried'][key] = (init, d(nxt))
+                return phi(op('gt', ('len', seq), lit(0, 'i')), some(('fold', L, key, init, d(nxt))), NONE)
         if short in ('count', 'max', 'min', 'last', 'nth', 'next', 'filter', 'collect',
                      'any', 'all', 'position', 'find', 'rposition', 'min_by_key', 'max_by_key', 'reduce', 'scan', 'windows'):
             seq = _iter_seq(it)
@@ -1422,6 +1592,111 @@ class VG:
                 return ('len', seq)
             return self.note_unknown('iter-' + short, e)
         return self.note_unknown('iter-' + short, e)
+
+
+def _iadd(a, b):
+    if a == lit(0, 'i'):
+        return b
+    if b == lit(0, 'i'):
+        return a
+    if a[0] == 'lit' and b[0] == 'lit':
+        return lit(a[1] + b[1], 'i')
+    return op('iadd', a, b)
+
+
+def _isub(a, b):
+    if b == lit(0, 'i'):
+        return a
+    if a[0] == 'lit' and b[0] == 'lit':
+        return lit(a[1] - b[1], 'i')
+    return op('isub', a, b)
+
+
+def _needs_canon(it):
+    """Iterators outside the natively modelled forms (zip, slices, unbounded ranges, rev under other adaptors)."""
+    top = True
+    cur = it
+    while isinstance(cur, tuple) and cur:
+        k = cur[0]
+        if k == 'zip':
+            return True
+        if k == 'range':
+            return cur[2] is None
+        if k == 'iter':
+            s_ = cur[1]
+            return isinstance(s_, tuple) and s_ and s_[0] == 'get' and isinstance(s_[2], tuple) and s_[2] and s_[2][0] == 'range'
+        if k == 'rev':
+            if not top:
+                return True
+            inner = cur[1]
+            while isinstance(inner, tuple) and inner and inner[0] == 'copied':
+                inner = inner[1]
+            return not (isinstance(inner, tuple) and inner and inner[0] == 'iter' and not _needs_canon(inner))
+        if k in ('enumerate', 'take', 'skip', 'copied', 'step_by', 'map'):
+            top = False
+            cur = cur[1]
+            continue
+        return False
+    return False
+
+
+def iter_desc(it):
+    """(count term or None when unbounded, item(p) for the 0-based position p) of an iterator term, or None."""
+    if not (isinstance(it, tuple) and it):
+        return None
+    k = it[0]
+    if k == 'range':
+        lo, hi, incl = it[1], it[2], it[3]
+        cnt = None if hi is None else (_iadd(_isub(hi, lo), lit(1, 'i')) if incl else _isub(hi, lo))
+        return cnt, (lambda p, lo=lo: _iadd(lo, p))
+    if k == 'iter':
+        s_ = it[1]
+        if isinstance(s_, tuple) and s_ and s_[0] == 'get' and isinstance(s_[2], tuple) and s_[2] and s_[2][0] == 'range':
+            base, r = s_[1], s_[2]
+            lo = r[1]
+            hi = r[2] if r[2] is not None else ('len', base)
+            if r[3]:
+                hi = _iadd(hi, lit(1, 'i'))
+            return _isub(hi, lo), (lambda p, base=base, lo=lo: ('get', base, _iadd(lo, p)))
+        return ('len', s_), (lambda p, s_=s_: ('get', s_, p))
+    if k == 'copied':
+        return iter_desc(it[1])
+    if k == 'rev':
+        d_ = iter_desc(it[1])
+        if d_ is None or d_[0] is None:
+            return None
+        cnt, f = d_
+        return cnt, (lambda p, cnt=cnt, f=f: f(_isub(_isub(cnt, lit(1, 'i')), p)))
+    if k == 'skip':
+        d_ = iter_desc(it[1])
+        if d_ is None:
+            return None
+        cnt, f = d_
+        return (None if cnt is None else _isub(cnt, it[2])), (lambda p, f=f, n=it[2]: f(_iadd(p, n)))
+    if k == 'take':
+        d_ = iter_desc(it[1])
+        if d_ is None:
+            return None
+        cnt, f = d_
+        return (it[2] if cnt is None else op('imin', cnt, it[2])), f
+    if k == 'enumerate':
+        d_ = iter_desc(it[1])
+        if d_ is None:
+            return None
+        cnt, f = d_
+        return cnt, (lambda p, f=f: ('tuple', (p, f(p))))
+    if k == 'zip':
+        a, b = iter_desc(it[1]), iter_desc(it[2])
+        if a is None or b is None:
+            return None
+        if a[0] is None:
+            cnt = b[0]
+        elif b[0] is None:
+            cnt = a[0]
+        else:
+            cnt = a[0] if a[0] == b[0] else op('imin', a[0], b[0])
+        return cnt, (lambda p, fa=a[1], fb=b[1]: ('tuple', (fa(p), fb(p))))
+    return None
 
 
 def _pat_ids(p):
